@@ -6,10 +6,16 @@ from . import kani_run
 GROUPS = {
     # group: (harness names, per-harness timeout, fast flags?, bound description or None)
     'serial': (['serial_set_control'], 600, False, None),
+    'header': (['header_checksum', 'header_size_tables', 'header_cart_type_supported', 'header_cart_type_unsupported'], 900, False, None),
+    'leaf': (['leaf_interleave'], 900, False, None),
+    'strs': (['strs_parse_address_hex', 'strs_parse_address_dec'], 1800, False, 'ASCII tokens of at most 6 bytes'),
 }
 KANI_FILES = ['main.rs', 'misc.rs']
 REPO_FILES = {
     'serial': ['src/devices/serial.rs'],
+    'header': ['src/cart.rs'],
+    'leaf': ['src/devices/video/tile.rs'],
+    'strs': ['src/debug/command.rs'],
 }
 
 
